@@ -549,6 +549,10 @@ func mkdirAllAt(base *node, baseAbs, name, shown string, perm FileMode) error {
 		d.mu.Unlock()
 		if werr == nil {
 			if !n.dir {
+				if base != d.root && i == len(parts)-1 {
+					// os.Root.MkdirAll reports the mkdirat failure for a final component that is a file
+					return perr("mkdirat", shownJoin(shown, name, sub), syscall.EEXIST)
+				}
 				return perr("mkdir", shownJoin(shown, name, sub), syscall.ENOTDIR)
 			}
 			continue
@@ -634,24 +638,26 @@ func removeAllAt(base *node, baseAbs, name, shown string) error {
 }
 
 func renameAt(base *node, baseAbs, oldname, newname string) error {
+	fail := func(e error) error { return &LinkError{Op: "rename", Old: oldname, New: newname, Err: e} }
 	op, err := splitAbs(oldname)
 	if err != nil {
-		return &LinkError{Op: "rename", Old: oldname, New: newname, Err: err}
+		return fail(err)
 	}
-	np, err := splitAbs(newname)
-	if err != nil {
-		return &LinkError{Op: "rename", Old: oldname, New: newname, Err: err}
+	np, nerr := splitAbs(newname)
+	target := newname
+	if nerr == nil {
+		target = path.Join(np...)
 	}
-	dec := before(&Op{Kind: "rename", Path: path.Join(baseAbs, path.Join(np...))})
+	dec := before(&Op{Kind: "rename", Path: path.Join(baseAbs, target)})
 	if dec.Err != nil {
-		return &LinkError{Op: "rename", Old: oldname, New: newname, Err: dec.Err}
+		return fail(dec.Err)
 	}
 	d.mu.Lock()
 	defer d.mu.Unlock()
-	fail := func(e error) error { return &LinkError{Op: "rename", Old: oldname, New: newname, Err: e} }
-	if len(op) == 0 || len(np) == 0 {
+	if len(op) == 0 {
 		return fail(syscall.EBUSY)
 	}
+	// the kernel resolves the source first
 	pp, ol, err := parentOf(base, op)
 	if err != nil {
 		return fail(err)
@@ -660,21 +666,27 @@ func renameAt(base *node, baseAbs, oldname, newname string) error {
 	if !ok {
 		return fail(syscall.ENOENT)
 	}
+	if nerr != nil {
+		return fail(nerr)
+	}
+	if len(np) == 0 {
+		return fail(syscall.EBUSY)
+	}
+	if src.dir && len(np) > len(op) && path.Join(np[:len(op)]...) == path.Join(op...) {
+		return fail(syscall.EINVAL) // a directory cannot be moved into itself
+	}
 	dp, nl, err := parentOf(base, np)
 	if err != nil {
 		return fail(err)
 	}
 	if dst, ok := dp.children[nl]; ok {
-		if dst == src {
-			return nil
-		}
 		switch {
-		case dst.dir && !src.dir:
-			return fail(syscall.EISDIR)
-		case !dst.dir && src.dir:
+		case dst.dir:
+			return fail(syscall.EEXIST) // package os refuses to rename onto an existing directory (even itself)
+		case dst == src:
+			return nil
+		case src.dir:
 			return fail(syscall.ENOTDIR)
-		case dst.dir && len(dst.children) > 0:
-			return fail(syscall.ENOTEMPTY)
 		}
 	}
 	delete(pp.children, ol)
